@@ -1,10 +1,10 @@
 SPECIFICATION Spec
 CONSTANTS
   RICH = TRUE
-  MINNODES = 9
-  MAXSTACK = 3
-  BUDGET = 16
-  FUEL = 600
+  MINNODES = 0
+  MAXSTACK = 99
+  BUDGET = 3
+  FUEL = 300
   MAXINT = 100000
 INVARIANTS TypeOK EnvOK BoundaryOK Emit
 CHECK_DEADLOCK FALSE
